@@ -491,6 +491,53 @@ TRICKY_STRINGS = ["cafe\u0301", "Zoe\u0308", "n\u0303", "\u1100\u1161\u11a8", "\
                   "\U0001f469\u200d\U0001f4bb", "\u0000", "a\u0000b", "\ud55c", "\u00c5ngstr\u00f6m", "A\u030angstro\u0308m"]
 
 
+def exercise_new_api(chk, probe, inside):
+    """Public callables the changed source defines and the pinned baseline does not (harness/srcdict.py): each one that can be called without arguments is called; what it
+    returns is used as a context manager (if it is one) around `inside()` - a few accepted AND refused calls of the old API - or simply dropped.  Afterwards `probe()` must
+    answer as it did before: new API, used or abused, does not change what the existing API does (leaked modes, switched defaults, half-restored state)."""
+    try:
+        from harness import srcdict
+        names = srcdict.new_callables()
+    except Exception:
+        names = []
+    if not names:
+        return
+    import importlib, inspect
+    before = probe()
+    used = []
+    for qn in names[:12]:
+        mod, nm = qn.split(":")
+        try:
+            f = getattr(importlib.import_module(mod), nm)
+            sig = inspect.signature(f)
+            if any(p.default is inspect.Parameter.empty and p.kind in (p.POSITIONAL_ONLY, p.POSITIONAL_OR_KEYWORD, p.KEYWORD_ONLY) for p in sig.parameters.values()):
+                continue
+        except Exception:
+            continue
+        used.append(qn)
+        for attempt in range(2):
+            try:
+                r = f()
+                if hasattr(r, "__enter__") and hasattr(r, "__exit__"):
+                    with r:
+                        inside()
+                elif callable(r):
+                    try:
+                        r(lambda *a, **k: None)
+                    except Exception:
+                        pass
+            except Exception:
+                pass
+    after = probe()
+    chk.evals += len(before)
+    chk.notes.append({"new_public_callables_exercised": used})
+    for (lab, x), (_, y) in zip(before, after):
+        if x != y:
+            chk.violation(f"after the new public API ({', '.join(used)[:120]}) was used, '{lab}' gives {y[:60]} instead of {x[:60]}", f"new-api-side-effect {lab.split(' ')[0]}",
+                          {"new_callables": used, "case": lab, "before": x[:300], "after": y[:300], "history": "call each new zero-argument callable; use what it returns as a context manager around a few accepted and refused calls of the old API (exceptions propagate through the with block); leave"})
+            break
+
+
 def lookalike_bytes():
     """byte strings that coincide with an encoding of something else: their base64url text is lower-case hex / digits / a word, or they ARE base64 / hex / JSON text"""
     import base64, json as _json
